@@ -267,10 +267,49 @@ func (i *interpreter) symConv(tDst, tSrc types.Type, x *Term) value {
 		return ts.mk("fp.to_ubv", sBV(dw), dw, 0, x)
 	}
 	if b, ok := tDst.Underlying().(*types.Basic); ok && b.Kind() == types.String {
-		i.abort("unsupported", "integer->string conversion of a symbolic value")
+		return i.symRuneToString(x, sSigned)
 	}
 	if tb, ok := tSrc.Underlying().(*types.Basic); ok && tb.Info()&types.IsBoolean != 0 {
 		return x
 	}
 	panic(fmt.Sprintf("symConv: unsupported %v -> %v", tSrc, tDst))
+}
+
+
+// symRuneToString implements string(r) for a symbolic integer: UTF-8 encoding, forking on the
+// encoding length; invalid code points (surrogates, > 0x10FFFF, negative) become "\uFFFD".
+func (i *interpreter) symRuneToString(x *Term, signed bool) value {
+	ts := i.ts
+	w := x.sort.W
+	r := x
+	if w < 32 {
+		r = ts.Resize(x, 32, signed)
+	} else if w > 32 {
+		// values outside 32 bits are invalid
+		fits := ts.Eq(ts.Resize(ts.Extract(31, 0, x), w, signed), x)
+		if !i.branch(fits) {
+			return "\uFFFD"
+		}
+		r = ts.Extract(31, 0, x)
+	}
+	c := func(v uint64) *Term { return ts.BV(32, v) }
+	lt := func(a *Term, v uint64) *Term { return ts.BVCmp("bvult", a, c(v)) }
+	b8 := func(t *Term) *Term { return ts.Extract(7, 0, t) }
+	shr := func(t *Term, n uint64) *Term { return ts.BVOp("bvlshr", t, c(n)) }
+	or := func(t *Term, v uint64) *Term { return ts.BVOp("bvor", t, c(v)) }
+	and := func(t *Term, v uint64) *Term { return ts.BVOp("bvand", t, c(v)) }
+	if i.branch(lt(r, 0x80)) {
+		return mkString([]value{i.norm(b8(r), types.Typ[types.Uint8])})
+	}
+	if i.branch(lt(r, 0x800)) {
+		return mkString([]value{b8(or(shr(r, 6), 0xC0)), b8(or(and(r, 0x3F), 0x80))})
+	}
+	surrogate := ts.And(ts.BVCmp("bvule", c(0xD800), r), ts.BVCmp("bvule", r, c(0xDFFF)))
+	if i.branch(ts.Or(surrogate, ts.BVCmp("bvult", c(0x10FFFF), r))) {
+		return "\uFFFD"
+	}
+	if i.branch(lt(r, 0x10000)) {
+		return mkString([]value{b8(or(shr(r, 12), 0xE0)), b8(or(and(shr(r, 6), 0x3F), 0x80)), b8(or(and(r, 0x3F), 0x80))})
+	}
+	return mkString([]value{b8(or(shr(r, 18), 0xF0)), b8(or(and(shr(r, 12), 0x3F), 0x80)), b8(or(and(shr(r, 6), 0x3F), 0x80)), b8(or(and(r, 0x3F), 0x80))})
 }
